@@ -323,6 +323,9 @@ func subSeed(sub string) uint64 {
 
 // guarded runs check(c) converting an unexpected panic into a Failure.
 func guarded[C any](sub string, check func(C) *Failure, c C) (f *Failure) {
+	// SetPanicOnFault is per goroutine: memory faults inside library code (for
+	// example an assembly kernel reading past a guard page) become panics.
+	debug.SetPanicOnFault(true)
 	defer func() {
 		if r := recover(); r != nil {
 			stack := string(debug.Stack())
